@@ -428,4 +428,85 @@ theorem findLoop_probes_le (e : Endian) (ix : UnitIndex) (id mask hash2 fuel h1 
         · simp
         · simp only; have := ih ((h1 + hash2) &&& mask); omega
 
+/-! ### `sections(row)`: row/column arithmetic -/
+
+theorem flatMap_length_mem {α : Type} (f : α → Bytes) (n : Nat) (t : List α)
+    (hf : ∀ a, a ∈ t → (f a).length = n) : (t.flatMap f).length = n * t.length := by
+  induction t with
+  | nil => simp
+  | cons a t ih =>
+    rw [List.flatMap_cons, List.length_append, hf a (by simp), ih (fun b hb => hf b (by simp [hb]))]
+    simp [Nat.mul_succ, Nat.add_comm]
+
+theorem drop_flatMap_mem {α : Type} (f : α → Bytes) (n : Nat) (t : List α)
+    (hf : ∀ a, a ∈ t → (f a).length = n) (p : Nat) :
+    (t.flatMap f).drop (p * n) = (t.drop p).flatMap f := by
+  induction p generalizing t with
+  | zero => simp
+  | succ p ih =>
+    cases t with
+    | nil => simp
+    | cons a t =>
+      rw [List.flatMap_cons, Nat.succ_mul, Nat.add_comm, ← List.drop_drop]
+      rw [List.drop_left' (hf a (by simp))]
+      simpa using ih t (fun b hb => hf b (by simp [hb]))
+
+/-- a row of `u32`s -/
+def encRow (e : Endian) (r : List Nat) : Bytes := r.flatMap (toBytes e 4)
+/-- a row-major matrix of `u32`s (the `offsets` / `sizes` arrays of the index) -/
+def encMatrix (e : Endian) (m : List (List Nat)) : Bytes := m.flatMap (encRow e)
+
+theorem encRow_length (e : Endian) (r : List Nat) : (encRow e r).length = 4 * r.length :=
+  flatMap_length_const _ 4 (fun a => toBytes_length e 4 a) r
+
+theorem sectionIter_rows (e : Endian) (ks : List SecKind) (os ss : List Nat) (t1 t2 : Bytes)
+    (ho : os.length = ks.length) (hs : ss.length = ks.length)
+    (hbo : ∀ v, v ∈ os → v < 2 ^ 32) (hbs : ∀ v, v ∈ ss → v < 2 ^ 32) :
+    sectionIter e ks (encRow e os ++ t1) (encRow e ss ++ t2) = ks.zip (os.zip ss) := by
+  induction ks generalizing os ss with
+  | nil => simp [sectionIter]
+  | cons k ks ih =>
+    cases os with
+    | nil => simp at ho
+    | cons o os =>
+      cases ss with
+      | nil => simp at hs
+      | cons s ss =>
+        simp only [encRow, List.flatMap_cons, List.append_assoc]
+        rw [sectionIter, readFixed_toBytes e 4 o _ (by have := hbo o (by simp); omega)]
+        simp only
+        rw [readFixed_toBytes e 4 s _ (by have := hbs s (by simp); omega)]
+        simp only [List.zip_cons_cons, List.cons.injEq, true_and]
+        exact ih os ss (by simpa using ho) (by simpa using hs)
+          (fun v hv => hbo v (by simp [hv])) (fun v hv => hbs v (by simp [hv]))
+
+theorem sections_matrix (e : Endian) (ix : UnitIndex) (offs szs : List (List Nat)) (row : Nat)
+    (hk : ix.sections.length = ix.sectionCount)
+    (hro : offs.length = ix.unitCount) (hrs : szs.length = ix.unitCount)
+    (hco : ∀ r, r ∈ offs → r.length = ix.sectionCount ∧ ∀ v, v ∈ r → v < 2 ^ 32)
+    (hcs : ∀ r, r ∈ szs → r.length = ix.sectionCount ∧ ∀ v, v ∈ r → v < 2 ^ 32)
+    (hoff : ix.offsets = encMatrix e offs) (hsz : ix.sizes = encMatrix e szs)
+    (h1 : 1 ≤ row) (h2 : row ≤ ix.unitCount) :
+    sections e ix row =
+      .ok (ix.sections.zip ((offs.getD (row - 1) []).zip (szs.getD (row - 1) []))) := by
+  have hlo : ∀ r, r ∈ offs → (encRow e r).length = ix.sectionCount * 4 := fun r hr => by
+    rw [encRow_length, (hco r hr).1, Nat.mul_comm]
+  have hls : ∀ r, r ∈ szs → (encRow e r).length = ix.sectionCount * 4 := fun r hr => by
+    rw [encRow_length, (hcs r hr).1, Nat.mul_comm]
+  have hpo : row - 1 < offs.length := by omega
+  have hps : row - 1 < szs.length := by omega
+  unfold sections
+  rw [if_neg (by omega)]
+  simp only
+  have e1 : (row - 1) * ix.sectionCount * 4 = (row - 1) * (ix.sectionCount * 4) := Nat.mul_assoc _ _ _
+  rw [e1, hoff, hsz, encMatrix, encMatrix,
+    flatMap_length_mem _ _ offs hlo, flatMap_length_mem _ _ szs hls]
+  rw [if_neg (by rw [Nat.mul_comm]; exact Nat.not_lt.mpr (Nat.mul_le_mul_left _ (by omega)))]
+  rw [if_neg (by rw [Nat.mul_comm]; exact Nat.not_lt.mpr (Nat.mul_le_mul_left _ (by omega)))]
+  rw [drop_flatMap_mem _ _ offs hlo, drop_flatMap_mem _ _ szs hls,
+    List.drop_eq_getElem_cons hpo, List.drop_eq_getElem_cons hps, List.flatMap_cons, List.flatMap_cons]
+  have ho := hco _ (List.getElem_mem hpo)
+  have hs := hcs _ (List.getElem_mem hps)
+  rw [sectionIter_rows e ix.sections _ _ _ _ (by rw [ho.1, hk]) (by rw [hs.1, hk]) ho.2 hs.2]
+  simp [List.getD_eq_getElem?_getD, hpo, hps]
 end Gimli.Index
